@@ -16,7 +16,7 @@ func init() {
 	register(&Property{
 		ID:      "C16",
 		NeedSSA: true,
-		Decided: "Structural necessary conditions: (ptrkinds) the set of value kinds whose Value points into external memory is computed from the constructor calls of the library (makeValueBytes / makeValueByteArray with a constant kind), and every kind switch that protects such memory — Value.Clone, rowAllocator.capture, the detach decision of newRowGroupRows — covers that whole set; (inputs) no function of the write API family (Write, WriteRows, WriteValues, WriteRow, WriteRowValues and the functions they hand their slices to) stores through a caller-provided slice parameter or passes it, or a part of it, to a callee that writes through the corresponding parameter (clearing, capturing, reordering helpers), except the frozen exceptions; (alloc) reconstruction allocates a fresh slice (reflect.MakeSlice on every path of setMakeSlice) and a fresh pointee (reflect.New on the pointer path) instead of reusing what the destination held; (detach) the value reader releases a page through the detaching path exactly when detach is set, and detaching never releases the values buffer. (assign) in functions filling a reflect.Value from a parquet Value, the value's byte slice (which points into a page buffer) reaches no reflect setter, no store into memory outliving the call and no module function doing either, unless it went through a copying operation (alias-preserving operations are enumerated: slicing, conversions, unsafe.String/Slice, unsafecast, reflect.ValueOf and views, append as destination); (inplace) AssignValue implementations never write through a view (Bytes/Slice/Index/Elem...) of the destination except under Kind()==Array; (destreads) reconstruct closures call only setters and type queries on the destination, never methods that read what it already holds. (borrowed) a struct field of type []Row that is filled by appending rows of a []Row parameter holds borrowed rows: nowhere in the package are the Values behind its elements written (no store through an element of an element, no clear/copy into an element, no call of a function that writes the row it is given or does any of these to the rows of a slice parameter); dropping or reordering the headers is allowed. (keepconfig) no method overwrites its whole receiver with a composite literal that leaves out a field which code outside the type's own methods assigns (configuration an owner sets on the instances it creates, e.g. the detach flag of a column chunk value reader). (retainrow) a Row kept in a struct field by a function that receives []Row is filled with cloned values, never with a row of the parameter or a shallow append of one.",
+		Decided: "Structural necessary conditions: (ptrkinds) the set of value kinds whose Value points into external memory is computed from the constructor calls of the library (makeValueBytes / makeValueByteArray with a constant kind) and from Value literals that pair a constant kind with a ptr that is not a fresh allocation of the same function, and every kind switch that protects such memory — Value.Clone, rowAllocator.capture, the detach decision of newRowGroupRows — covers that whole set; (inputs) no function of the write API family (Write, WriteRows, WriteValues, WriteRow, WriteRowValues and the functions they hand their slices to) stores through a caller-provided slice parameter or passes it, or a part of it, to a callee that writes through the corresponding parameter (clearing, capturing, reordering helpers), except the frozen exceptions; (alloc) reconstruction allocates a fresh slice (reflect.MakeSlice on every path of setMakeSlice) and a fresh pointee (reflect.New on the pointer path) instead of reusing what the destination held; (detach) the value reader releases a page through the detaching path exactly when detach is set, and detaching never releases the values buffer. (assign) in functions filling a reflect.Value from a parquet Value, the value's byte slice (which points into a page buffer) reaches no reflect setter, no store into memory outliving the call and no module function doing either, unless it went through a copying operation (alias-preserving operations are enumerated: slicing, conversions, unsafe.String/Slice, unsafecast, reflect.ValueOf and views, append as destination); (inplace) AssignValue implementations never write through a view (Bytes/Slice/Index/Elem...) of the destination except under Kind()==Array; (destreads) reconstruct closures call only setters and type queries on the destination, never methods that read what it already holds. (borrowed) a struct field of type []Row that is filled by appending rows of a []Row parameter holds borrowed rows: nowhere in the package are the Values behind its elements written (no store through an element of an element, no clear/copy into an element, no call of a function that writes the row it is given or does any of these to the rows of a slice parameter); dropping or reordering the headers is allowed. (keepconfig) no method overwrites its whole receiver with a composite literal that leaves out a field which code outside the type's own methods assigns (configuration an owner sets on the instances it creates, e.g. the detach flag of a column chunk value reader). (retainrow) a Row kept in a struct field by a function that receives []Row is filled with cloned values, never with a row of the parameter or a shallow append of one. (handout) a method that fills a caller-supplied []Row and reads a []Row field of its receiver never copies row headers of that field into the destination (no bulk copy, no store of an element of the field): the caller gets copies of the values.",
 		NotDecided: "absence of every dangling alias (escape analysis over unsafe pointers is out of reach); pool reuse timing; aliasing that flows through struct fields rather than parameters; raw-variant structs written through a pointer already present in the destination.",
 		Assumptions: []string{"parameter-write summaries follow static calls to depth 3; dynamic calls through interfaces are not followed"},
 		Run:         runC16,
@@ -34,6 +34,7 @@ func runC16(c *Ctx) {
 	runBorrowedRowsRule(c, "C16.borrowed", 3)
 	runKeepConfigRule(c, "C16.keepconfig", 10)
 	runRetainedRowRule(c, "C16.retainrow", 1)
+	runHandoutRule(c, "C16.handout", 2)
 }
 
 func c16PtrKinds(c *Ctx) {
@@ -65,6 +66,83 @@ func c16PtrKinds(c *Ctx) {
 				pk[names[k.Int64()]] = true
 			}
 		})
+		// … and from Value literals built in place: a constant kind together
+		// with a ptr that is not a fresh allocation of the same function
+		if fn.Blocks == nil || fnPkgPath(fn) != modPath {
+			continue
+		}
+		type lit struct {
+			kind *ssa.Const
+			ptr  ssa.Value
+		}
+		lits := map[ssa.Value]*lit{}
+		allInstrs(fn, false, func(_ *ssa.Function, ins ssa.Instruction) {
+			st, ok := ins.(*ssa.Store)
+			if !ok {
+				return
+			}
+			fa, ok := st.Addr.(*ssa.FieldAddr)
+			if !ok {
+				return
+			}
+			named := namedOf(fa.X.Type())
+			stt := structOf(fa.X.Type())
+			if named == nil || stt == nil || named.Obj().Name() != "Value" || named.Obj().Pkg() == nil || named.Obj().Pkg().Path() != modPath {
+				return
+			}
+			if lits[fa.X] == nil {
+				lits[fa.X] = &lit{}
+			}
+			switch stt.Field(fa.Field).Name() {
+			case "kind":
+				if k, ok := st.Val.(*ssa.Const); ok && k.Value != nil {
+					lits[fa.X].kind = k
+				}
+			case "ptr":
+				lits[fa.X].ptr = st.Val
+			}
+		})
+		for _, l := range lits {
+			if l.kind == nil || l.ptr == nil {
+				continue
+			}
+			// fresh: the address of (an element of) a cell allocated by this function
+			v := l.ptr
+			fresh := false
+			for depth := 0; depth < 8 && v != nil; depth++ {
+				switch x := v.(type) {
+				case *ssa.Convert:
+					v = x.X
+					continue
+				case *ssa.ChangeType:
+					v = x.X
+					continue
+				case *ssa.IndexAddr:
+					v = x.X
+					continue
+				case *ssa.FieldAddr:
+					v = x.X
+					continue
+				case *ssa.Alloc:
+					fresh = x.Heap
+				case *ssa.Const:
+					fresh = x.Value == nil // nil pointer
+				}
+				break
+			}
+			if fresh {
+				continue
+			}
+			nsites++
+			// the kind is stored complemented (^int8(K)) for values of a column
+			k := l.kind.Int64()
+			if k < 0 {
+				k = ^k
+			}
+			if nm, ok := names[k]; ok {
+				pk[nm] = true
+			}
+		}
 	}
 	var kinds []string
 	for k := range pk {
